@@ -18,9 +18,6 @@ func (c *Ctx) literalBounds(rule string) {
 	R.Explain(rule, "allocation cap (T-DOM): every make whose size flows from ParseNumber in the parsing packages is dominated by a comparison with a constant upper bound (error on exceed, <= 64 MiB) and by a lower bound that excludes 0 (Scanner.ConsumeBytes writes dst[0] unconditionally).")
 	n := 0
 	for _, f := range c.funcsInPkg("rfcparser", "imap/command") {
-		if isInstance(f) {
-			continue
-		}
 		for _, b := range f.Blocks {
 			for _, in := range b.Instrs {
 				ms, ok := in.(*ssa.MakeSlice)
@@ -366,9 +363,6 @@ func (c *Ctx) taggedResponsesNotDropped(rule string) {
 	}
 	n := 0
 	for _, f := range c.funcsInPkg("internal/session") {
-		if isInstance(f) {
-			continue
-		}
 		rets := respErr(f)
 		if len(rets) == 0 {
 			continue
